@@ -42,7 +42,8 @@ TOL = np.array([5e-11, 5e-11, 1e-6] + [3e-10] * 3 + [3e-10] * 9)
 
 def domain_module(tier, seed):
     rng = np.random.RandomState(seed + 101)
-    vels = [(0, 0, 0), (3, -2, 1), (0, 5, 0), (-4, 1, -2)]
+    # one aircraft speed: at 9 km the altitude-dependent part of the radii is then 5e-10 rad/s in the latitude rate (seeded change C01_1)
+    vels = [(0, 0, 0), (3, -2, 1), (0, 5, 0), (-4, 1, -2), (250, -120, 3)]
     forces = [(0, 0, -7), (3, -2, 1)]
     rates = [(0, 0, 0), (1, -1, 2)]
     for _ in range(1 if tier == "quick" else 3):
@@ -147,7 +148,8 @@ def _one(m, cfg):
     if not pva.equals(before):
         probs.append("the Integrator modified the pva it was given")
     dev = np.abs(got - model)
-    sc = 1.0 + np.abs(model)
+    # (the round-off of a difference quotient grows with the magnitude differenced: velocity rows with the speed)
+    sc = (1.0 + np.abs(model)) * np.array([1.0] * 3 + [1.0 + float(np.abs(cfg["vel"]).max()) / 16.0] * 3 + [1.0] * 9)
     bad = dev > TOL * sc
     if bad.any():
         i = int(np.argmax(dev / (TOL * sc)))
